@@ -560,5 +560,89 @@ pub fn run_ids(out_prefix: &str, shards: usize, seed: u64, scale: usize) -> (usi
     (nc, ne)
 }
 
+// ---------------------------------------------------------------------------
+// Input as a state machine (spec/ACInput.tla): histories of setter calls on a
+// real Input, each followed by what the Input reports and by what a search for
+// the empty pattern with that configuration returns.  No expectation is
+// computed here.
+pub fn run_inputops(out_prefix: &str, shards: usize, seed: u64, scale: usize) -> usize {
+    let mut out = Out::create(out_prefix, shards);
+    let mut rg = gen::rng(seed, 0x1A9F_0007);
+    let names = ["set_span", "set_start", "set_end", "range", "range_incl", "range_from",
+                 "range_to", "range_to_incl", "range_full", "anchored", "earliest"];
+    let acs: Vec<AhoCorasick> = [aho_corasick::AhoCorasickKind::NoncontiguousNFA,
+                                 aho_corasick::AhoCorasickKind::ContiguousNFA,
+                                 aho_corasick::AhoCorasickKind::DFA]
+        .iter()
+        .map(|k| AhoCorasick::builder().kind(Some(*k)).start_kind(aho_corasick::StartKind::Both)
+            .build([""]).unwrap())
+        .collect();
+    let hay = vec![b'x'; 8];
+    let mut n = 0usize;
+    for h in 0..(3000 * scale) {
+        let len = rg.gen_range(0..=6usize);
+        let nops = rg.gen_range(1..=8usize);
+        let ac = &acs[h % acs.len()];
+        let mut input = Input::new(&hay[..len]);
+        let mut ops: Vec<Value> = vec![];
+        for _ in 0..nops {
+            let name = names[rg.gen_range(0..names.len())];
+            // arguments around the current span and the haystack end, sometimes beyond
+            let pick = |rg: &mut StdRng, input: &Input| -> usize {
+                match rg.gen_range(0..5) {
+                    0 => input.start(),
+                    1 => input.end(),
+                    2 => len,
+                    3 => rg.gen_range(0..=len + 2),
+                    _ => rg.gen_range(0..=len),
+                }
+            };
+            let (a, b) = (pick(&mut rg, &input), pick(&mut rg, &input));
+            let (a, b) = match name {
+                "range_full" => (0, 0),
+                "anchored" | "earliest" => (rg.gen_range(0..2usize), 0),
+                "set_start" | "set_end" | "range_from" | "range_to" | "range_to_incl" => (a, 0),
+                _ => (a, b),
+            };
+            let mut cand = input.clone();
+            let g = guarded(|| {
+                match name {
+                    "set_span" => cand.set_span(Span { start: a, end: b }),
+                    "set_start" => cand.set_start(a),
+                    "set_end" => cand.set_end(a),
+                    "range" => cand.set_range(a..b),
+                    "range_incl" => cand.set_range(a..=b),
+                    "range_from" => cand.set_range(a..),
+                    "range_to" => cand.set_range(..a),
+                    "range_to_incl" => cand.set_range(..=a),
+                    "range_full" => cand.set_range(..),
+                    "anchored" => cand.set_anchored(if a != 0 { aho_corasick::Anchored::Yes } else { aho_corasick::Anchored::No }),
+                    "earliest" => cand.set_earliest(a != 0),
+                    _ => unreachable!(),
+                }
+                cand
+            });
+            let o = match g {
+                Ok(c) => { input = c; "ok" }
+                // the candidate was moved into the closure; `input` is the configuration from
+                // before the call, which is what a caller that caught the panic still holds
+                Err(_) => "panic",
+            };
+            let found = match guarded(|| ac.try_find(input.clone())) {
+                Ok(Ok(Some(m))) => json!(format!("{}..{}", m.start(), m.end())),
+                Ok(Ok(None)) => json!("none"),
+                Ok(Err(e)) => json!(format!("err {}", e)),
+                Err(p) => json!(format!("panic {}", p)),
+            };
+            ops.push(json!([name, a, b, o, input.start(), input.end(), input.is_done(),
+                            input.get_anchored().is_anchored(), input.get_earliest(), found]));
+            n += 1;
+        }
+        out.put(h, &json!({"ev": "input", "len": len, "ops": ops}));
+    }
+    out.finish();
+    n
+}
+
 #[allow(dead_code)]
 fn unused(_: &AhoCorasick) {}
